@@ -1,5 +1,82 @@
 import NA.Core.IOUtil
-/-! Driver stub for C04 (not built yet): echoes its input. -/
+import NA.Model.NsxWire
+import NA.Model.NsxAccept
+/-!
+Driver for C04 (and the NSX share of C07/C08/C10).  One case per line, TAB separated:
+
+  plan  S V4 V6 RAW        model of the planner on the store S (the load filter is applied here) and the
+                           three Netspoc files  → `OK calls |needed| |nod|` / `ERR msg` (checkRaw) / `ABORT msg`
+  run   S T CALLS P        strict execution of CALLS (the REAL code's calls) on the object store S, oracle
+                           predicates against the merged target T → `status final verdicts [prefix states…]`
+                           (P = 1: also the store after every prefix)
+  class S T                the decidable side conditions (hypotheses of the theorems / finding signatures)
+  myers ALEN BLEN BITS     the Myers port on a 0/1 matrix (row major) → ranges and validity
+-/
+namespace NA.Drv.C04
+open NA.Nsx NA.Nsx.Wire NA.IOUtil
+
+def encRanges (rs : List Range) : String :=
+  ";".intercalate (rs.map fun r => s!"{r.lowA},{r.highA},{r.lowB},{r.highB}")
+
+def flag (k : String) (b : Bool) : String := s!"{k}={b2s b}"
+
+def verdicts (S0 S : Store) (T : Config) (cs : List Call) : String :=
+  " ".intercalate [flag "conv" (convergedB S T), flag "svc" (servicesB S T), flag "grp" (noLeftoverGroupB S T),
+    flag "frame" (frameB S0 S), flag "scope" (scopeB cs), flag "wf" (storeWF S),
+    flag "nonempty" ((load S).groups.all (!·.addrs.isEmpty))]
+
+def answer (line : String) : String :=
+  match splitTab line with
+  | ["plan", s, v4, v6, raw] =>
+    match decConfig s, decConfig v4, decConfig v6, decConfig raw with
+    | some S, some v4, some v6, some raw =>
+      match loadSpoc v4 v6 raw with
+      | .error e => s!"ERR\t{e}"
+      | .ok T =>
+        let p := plan myers (load S) T
+        match p.abort with
+        | some m => s!"ABORT\t{m}"
+        | none => s!"OK\t{encCalls p.calls}\t{p.needed.length}\t{p.nod.length}"
+    | _, _, _, _ => "bad-input"
+  | ["run", s, t, cs, pfx] =>
+    match decConfig s, decConfig t, decCalls cs with
+    | some S, some T, some cs =>
+      let (status, final) : String × Store :=
+        match execAll S cs 0 with
+        | .ok S' => ("ok", S')
+        | .error (i, e, S') => (s!"fail:{i}:{e}", S')
+      let states : List String :=
+        if pfx == "1" then
+          let rec go (S : Store) (cs : List Call) (acc : List String) : List String :=
+            match cs with
+            | [] => (encConfig S :: acc).reverse
+            | c :: rest =>
+              match exec S c with
+              | .ok S' => go S' rest (encConfig S :: acc)
+              | .error _ => (encConfig S :: acc).reverse
+          go S cs []
+        else []
+      "\t".intercalate ([status, encConfig final, verdicts S final T cs] ++ states)
+    | _, _, _ => "bad-input"
+  | ["class", s, t] =>
+    match decConfig s, decConfig t with
+    | some S, some T =>
+      " ".intercalate [flag "storeWF" (storeWF S), flag "addrsNodup" (addrsNodup S), flag "targetWF" (targetWF T),
+        flag "policyIds" (policyIdsManaged T), flag "extRefs" (extRefsOK S T), flag "unmanagedIndep" (unmanagedIndep S),
+        flag "idsOK" (idsOK (load S) T), flag "sortTies" (sortTies T), flag "accepted" (accepted S T)]
+    | _, _ => "bad-input"
+  | ["myers", a, b, bits] =>
+    match a.toNat?, b.toNat? with
+    | some aLen, some bLen =>
+      let m := bits.toList.toArray
+      let eq (i j : Nat) : Bool := m.getD (i * bLen + j) '0' == '1'
+      let rs := myers aLen bLen eq
+      s!"{encRanges rs}\t{b2s (validScript aLen bLen eq rs)}"
+    | _, _ => "bad-input"
+  | _ => "bad-input"
+
+end NA.Drv.C04
+
 def main (_ : List String) : IO UInt32 := do
-  NA.IOUtil.eachLine id
+  NA.IOUtil.eachLine NA.Drv.C04.answer
   return 0
